@@ -102,6 +102,62 @@ Definition exec_trace_st (var : variant) (tr : list ev) (c : led * list (N * led
 
 Definition exec_trace (var : variant) (tr : list ev) (l : led) : led := fst (exec_trace_st var tr (l, [])).
 
+(* ---- opcode-level events: what the EVM's value-moving opcodes are observed to be given (operands on the stack,
+        registry facts), with their ledger semantics defined HERE by lowering to the primitive events above.
+        Observed on the real code by the per-instance jump-table wrappers of src/vm/verif_c06.go (STAKE, UNSTAKE,
+        UNSTAKEALL, AUTHCALL) and by the StateDB recorder (everything else). ---- *)
+Definition e18 : Z := 1000000000000000000.
+Definition two64 : Z := 18446744073709551616.
+Definition refund_after : N := 36000.      (* getRefundHeight under Proposal012: now + 36000 *)
+
+Inductive oev :=
+| OPrim (e : ev)
+| OStake (a : addr) (amount : Z) (has_miner : bool)
+    (* opStake run by contract a with stack operand amount (wei); has_miner: GetMinerIdByAccount(a) found a miner *)
+| OUnstake (origin a : addr) (amount stake : Z) (has_miner : bool) (now : N)
+    (* opUnStake; stake = that miner's stake in whole tokens before the opcode; now = block height *)
+| OUnstakeAll (origin a : addr) (stake : Z) (has_miner : bool) (now : N)
+| OAuthCall (sponsor to : addr) (v : Z).
+    (* opAuthCall -> evm.AuthCall: CanTransfer(sponsor = tx origin, v), Transfer(sponsor, to, v) *)
+
+(* whole tokens of a wei amount, as ParseUint(BigIntToStrWithoutDot(amount), 10, 0) sees them *)
+Definition whole_of (amount : Z) : Z := amount / e18.
+
+(* opUnStake ignores the ParseUint error: a value >= 2^64 comes back as MaxUint64, which GetRefundStake reads as
+   "the whole stake" (and so does exactly MaxUint64) *)
+Definition unstake_whole (amount stake : Z) : Z :=
+  if two64 - 1 <=? whole_of amount then stake else whole_of amount.
+
+Definition lower (e : oev) : list ev :=
+  match e with
+  | OPrim p => [p]
+  | OStake a amount hm =>
+    (* parse error (>= 2^64 whole tokens) -> false; no miner -> false; AddStake(a, miner, whole): 0 -> nothing;
+       Float64ToBigInt(float64(whole)) is whole * 10^18 below 2^53 whole tokens; checked debit (ELock) *)
+    if (whole_of amount <? two64) && hm then [ELock a (whole_of amount * e18)] else []
+  | OUnstake o a amount stake hm now =>
+    if hm && (unstake_whole amount stake <=? stake)
+    then [EUnstake o a amount (unstake_whole amount stake * e18) (now + refund_after)] else []
+  | OUnstakeAll o a stake hm now =>
+    if hm then [EUnstake o a 0 (stake * e18) (now + refund_after)] else []
+  | OAuthCall s t v => [EValue s t v]
+  end.
+
+Definition lower_trace (tr : list oev) : list ev := flat_map lower tr.
+
+(* what the opcode pushes (STAKE / UNSTAKE: 1 or 0; UNSTAKEALL: the released wei, -1 = the opcode returns an error and
+   the frame aborts), given the ledger it runs on *)
+Definition op_result (e : oev) (l : led) : option Z :=
+  match e with
+  | OStake a amount hm =>
+    Some (if negb ((whole_of amount <? two64) && hm) then 0
+          else if whole_of amount =? 0 then 1
+          else if bal l a <? whole_of amount * e18 then 0 else 1)
+  | OUnstake _ _ amount stake hm _ => Some (if hm && (unstake_whole amount stake <=? stake) then 1 else 0)
+  | OUnstakeAll _ _ stake hm _ => Some (if hm then stake * e18 else -1)
+  | _ => None
+  end.
+
 (* ---- fees ---- *)
 (* ProcessFee: check, SubBalance, AddBalance(FeeAccount).  [fee] = delta026 = 0.001 token *)
 Definition tx_fee : Z := 1000000000000000.
@@ -235,6 +291,25 @@ Definition exec_tx (var : variant) (t : tx) (l : led) : led :=
     end
   end.
 
+(* the ledger on which the EVM starts, when the transaction gets that far (fee, decode, precheck, intrinsic gas passed) *)
+Definition evm_start (t : tx) (l : led) : option led :=
+  match t with
+  | TContract src decode_ok limit_fee value intrinsic_ok _ _ _ _ =>
+    match fee_step l src with
+    | (_, false) => None
+    | (l1, true) => if negb decode_ok || (bal l1 src <? limit_fee + value) || negb intrinsic_ok then None else Some l1
+    end
+  | _ => None
+  end.
+
+(* the values the stake opcodes push along an observed run *)
+Fixpoint oev_results (var : variant) (tr : list oev) (c : led * list (N * led)) : list Z :=
+  match tr with
+  | [] => []
+  | e :: r => (match op_result e (fst c) with Some z => [z] | None => [] end)
+              ++ oev_results var r (exec_trace_st var (lower e) c)
+  end.
+
 (* ---- block-level operations ---- *)
 Inductive op :=
 | OTx (t : tx)
@@ -260,6 +335,36 @@ Definition exec_op (var : variant) (o : op) (l : led) : led :=
   end.
 
 Definition run (var : variant) (ops : list op) (l : led) : led := fold_left (fun l o => exec_op var o l) ops l.
+
+(* ---- the block reward: specification of RewardCalculator.calculateRewardPerBlock in exact arithmetic ----
+   per block T = TotalRPGSupply * (1 - ReleaseRate)^epoch * ReleaseRate / blocksPerEpoch tokens
+               = 7350000 * (23/25)^epoch * (2/25) / blocksPerEpoch,           epoch = height / blocksPerEpoch;
+   3/14 of it to the account of the block's proposer, 1/2 shared by the active proposers in proportion to their stakes
+   (accumulated per account), 2/7 shared by the members of the verifying group in proportion to their stakes - and the
+   code ASSIGNS the validator shares (result[addr] = ..), replacing whatever the account had gathered as a proposer.
+   The code computes each share in float64 and truncates share * 10^18 (Float64ToBigInt); the specification is the exact
+   rational, a share being a weight w over  W = 14 * S' * V'  times T  (S', V' = the two stake totals, 1 when zero). *)
+Definition reward_num (epoch : Z) : Z := 7350000 * 23 ^ epoch * 2 * 1000000000000000000.      (* T in wei = num / den *)
+Definition reward_den (epoch blocks_per_epoch : Z) : Z := 25 ^ (epoch + 1) * blocks_per_epoch.
+
+Fixpoint sum_snd (l : list (addr * Z)) : Z := match l with [] => 0 | (_, v) :: r => v + sum_snd r end.
+
+Fixpoint acc_add (m : list (addr * Z)) (a : addr) (v : Z) : list (addr * Z) :=
+  match m with
+  | [] => [(a, v)]
+  | (x, y) :: r => if N.eqb x a then (x, y + v) :: r else (x, y) :: acc_add r a v
+  end.
+
+Definition nz1 (x : Z) : Z := if x =? 0 then 1 else x.
+
+Definition reward_weights (castor : addr) (proposers validators : list (addr * Z)) : list (addr * Z) :=
+  let S := sum_snd proposers in let V := sum_snd validators in
+  let base := fold_left (fun m p => acc_add m (fst p) (7 * snd p * nz1 V)) proposers [(castor, 3 * nz1 S * nz1 V)] in
+  let kept := filter (fun p => negb (existsb (fun q => N.eqb (fst q) (fst p)) validators)) base in
+  kept ++ map (fun q => (fst q, 4 * snd q * nz1 S)) validators.
+
+Definition reward_weight_total (proposers validators : list (addr * Z)) : Z :=
+  14 * nz1 (sum_snd proposers) * nz1 (sum_snd validators).
 
 (* ---- measures over a finite universe of addresses ---- *)
 Fixpoint sumU (U : list addr) (b : bals) : Z :=
@@ -297,6 +402,26 @@ Definition ev_wf (e : ev) : Prop :=
   | EUnstake _ _ req rel _ => 0 <= req /\ 0 <= rel
   | _ => True
   end.
+
+Definition oev_closed (U : list addr) (e : oev) : Prop :=
+  match e with
+  | OPrim p => ev_closed U p
+  | OStake a _ _ => In a U
+  | OUnstake o a _ _ _ _ => In o U /\ In a U
+  | OUnstakeAll o a _ _ _ => In o U /\ In a U
+  | OAuthCall s t _ => In s U /\ In t U
+  end.
+
+(* operands are uint256 stack words, stakes uint64 *)
+Definition oev_wf (e : oev) : Prop :=
+  match e with
+  | OPrim p => ev_wf p
+  | OStake _ amount _ => 0 <= amount
+  | OUnstake _ _ amount stake _ _ => 0 <= amount /\ 0 <= stake
+  | OUnstakeAll _ _ stake _ _ => 0 <= stake
+  | OAuthCall _ _ _ => True
+  end.
+
 
 Definition tx_closed (U : list addr) (t : tx) : Prop :=
   match t with
